@@ -1,8 +1,11 @@
-(* C16 -- Part 4: metadata through programs; the strata where the FAITHFUL
-   machine violates the property (witnesses computed by vm_compute; each is
-   replayed on the implementation by the oracle); read-only properties. *)
-From Coq Require Import ZArith List Bool Arith Lia Reals Lra.
-From Verif Require Import Scalar RInst NdIndex C16Model C16Index C16Proofs.
+(* C16 -- Part 4: metadata through programs; the clauses that were refuted on
+   the tree before the `fix:` commits (transpose / unit dropping the improper
+   flags, Misorientation.unit / unary minus dropping the symmetry pair, Miller
+   unary minus dropping phase and format, Miller.squeeze raising, azimuth
+   writing into its operand), now proved for every well-formed object of the
+   FAITHFUL machine; read-only properties. *)
+From Coq Require Import ZArith List Bool Arith Lia.
+From Verif Require Import Scalar NdIndex C16Model C16Index C16Proofs.
 Import ListNotations.
 
 (* ---------------------------------------------------------------- metadata *)
@@ -56,113 +59,124 @@ Theorem metadata_preserved c p x x' :
   ometa x' = if (is_mis c && inv_parity p)%bool then meta_swap (ometa x) else ometa x.
 Proof. intros Hn E. rewrite (run_spec_meta c p x x' E). apply meta_after_closed; exact Hn. Qed.
 
-(* ... and so does the implementation's method table, outside the findings *)
+(* ... and so does the implementation's method table *)
 Theorem metadata_preserved_faithful c p x x' :
-  wf c x = true -> safe_run vf c p x = true -> no_stack p = true ->
+  wf c x = true -> no_stack p = true ->
   run (step_cls vf c) p x = Some x' ->
   ometa x' = if (is_mis c && inv_parity p)%bool then meta_swap (ometa x) else ometa x.
 Proof.
-  intros Hwf Hs Hn E. rewrite (run_faithful vf c p x Hwf Hs) in E.
+  intros Hwf Hn E. rewrite (run_faithful vf c p x Hwf) in E.
   eapply metadata_preserved; eassumption.
 Qed.
 End Meta.
 
-(* ------------------------------------------------------------ the findings *)
-(* values are plain numbers here: the defects are independent of the data *)
+(* ------------------------------------------- the repaired clauses *)
+(* values are plain numbers in the examples: the clauses are independent of
+   the data *)
 Definition vfN : vfuns nat := mkVfuns nat (fun v => v) (fun v => v) (fun v => v) 0.
 
-Definition differs_in {A} (proj : obj nat -> A) (c : cls) (o : op) (x : obj nat) : Prop :=
-  wf c x = true /\
-  exists y z, step_cls vfN c o x = Some y /\ step_spec vfN c o x = Some z /\ proj y <> proj z.
+Section Repaired.
+Context {V : Type} (vf : vfuns V).
 
-Ltac witness x :=
-  exists x; split; [reflexivity|];
-  eexists; eexists; split; [vm_compute; reflexivity|]; split; [vm_compute; reflexivity|];
-  vm_compute; discriminate.
-
-(* Rotation/Orientation/Misorientation.transpose on >= 2 axes resets the flags *)
-Lemma transpose_flags_refuted :
-  exists x, differs_in o_flags CRot (OTranspose None) x
-         /\ differs_in o_flags COri (OTranspose (Some [1; 0])) (mkObj (oshape x) (orows x) (mkMeta 0 5 0 0))
-         /\ differs_in o_flags CMis (OTranspose None) (mkObj (oshape x) (orows x) (mkMeta 3 5 0 0)).
+(* an element-wise operation of the implementation = map over the rows *)
+Lemma eop_step c e f (x : obj V) :
+  wf c x = true -> sact vf c e = Some f ->
+  step_cls vf c (OEl e) x = Some (mkObj (oshape x) (map f (orows x)) (smeta c (OEl e) (ometa x))).
 Proof.
-  exists (mkObj [1; 2] [(7, true); (8, false)] meta0). repeat split;
-  try (eexists; eexists; split; [vm_compute; reflexivity|]; split; [vm_compute; reflexivity|];
-       vm_compute; discriminate).
+  intros Hwf Hf. rewrite (step_faithful vf c (OEl e) x Hwf).
+  unfold step_spec; cbn [astep]. rewrite Hf. reflexivity.
 Qed.
 
-Lemma unit_flags_refuted :
-  exists x, differs_in o_flags CRot (OEl EUnit) x
-         /\ differs_in o_flags COri (OEl EUnit) (mkObj (oshape x) (orows x) (mkMeta 0 5 0 0))
-         /\ differs_in o_flags CMis (OEl EUnit) (mkObj (oshape x) (orows x) (mkMeta 3 5 0 0)).
+(* transpose (>= 2 axes, any permutation of them) of an object of ANY class,
+   rotation-like ones with set flags included: the rows -- value and improper
+   flag together -- are gathered by the transposition's index map, metadata
+   kept *)
+Theorem transpose_flags c ax (x : obj V) :
+  wf c x = true -> Nat.eqb (length (oshape x)) 1 = false ->
+  perm_ok (length (oshape x)) ax = true ->
+  step_cls vf c (OTranspose (Some ax)) x
+  = Some (mkObj (tr_shape (oshape x) ax)
+                (gather (drow vf) (orows x) (idx_transpose (oshape x) ax)) (ometa x)).
 Proof.
-  exists (mkObj [2] [(7, true); (8, false)] meta0). repeat split;
-  try (eexists; eexists; split; [vm_compute; reflexivity|]; split; [vm_compute; reflexivity|];
-       vm_compute; discriminate).
+  intros Hwf H1 Hp. rewrite (step_faithful vf c _ x Hwf).
+  unfold step_spec; cbn [astep plan_of]. unfold plan_transpose. rewrite H1, Hp. reflexivity.
 Qed.
 
-Lemma misorientation_unit_symmetry_refuted :
-  exists x, differs_in ometa CMis (OEl EUnit) x.
-Proof. witness (mkObj [2] [(7, false); (8, false)] (mkMeta 3 5 0 0)). Qed.
-
-Lemma misorientation_neg_symmetry_refuted :
-  exists x, differs_in ometa CMis (OEl ENeg) x.
-Proof. witness (mkObj [2] [(7, false); (8, true)] (mkMeta 3 5 0 0)). Qed.
-
-Lemma miller_neg_metadata_refuted :
-  exists x, differs_in ometa CMil (OEl ENeg) x.
-Proof. witness (mkObj [2] [(7, false); (8, false)] (mkMeta 0 0 1 2)). Qed.
-
-Lemma miller_squeeze_refuted :
-  exists x, wf CMil x = true /\ step_cls vfN CMil OSqueeze x = None
-            /\ exists z, step_spec vfN CMil OSqueeze x = Some z.
+(* ... and without axes on a 2-D object *)
+Theorem transpose2_flags c (x : obj V) :
+  wf c x = true -> length (oshape x) = 2 ->
+  step_cls vf c (OTranspose None) x
+  = Some (mkObj (tr_shape (oshape x) [1; 0])
+                (gather (drow vf) (orows x) (idx_transpose (oshape x) [1; 0])) (ometa x)).
 Proof.
-  exists (mkObj [1; 2] [(7, false); (8, false)] (mkMeta 0 0 1 2)).
-  split; [reflexivity|]. split; [reflexivity|]. eexists. vm_compute. reflexivity.
+  intros Hwf H2. rewrite (step_faithful vf c _ x Hwf).
+  unfold step_spec; cbn [astep plan_of]. unfold plan_transpose. rewrite H2. reflexivity.
 Qed.
+
+(* .unit of any class: values normalised, every flag and the metadata
+   (symmetry pair of a misorientation included) kept *)
+Theorem unit_flags c (x : obj V) :
+  wf c x = true ->
+  exists y, step_cls vf c (OEl EUnit) x = Some y
+            /\ oshape y = oshape x /\ o_data y = map (v_unit vf) (o_data x)
+            /\ o_flags y = o_flags x /\ ometa y = ometa x.
+Proof.
+  intros Hwf. eexists. split; [eapply (eop_step c EUnit); [exact Hwf|reflexivity]|].
+  unfold o_data, o_flags; cbn [oshape orows ometa smeta]. rewrite !map_map.
+  repeat split; reflexivity.
+Qed.
+
+Theorem misorientation_unit_symmetry (x : obj V) :
+  wf CMis x = true ->
+  exists y, step_cls vf CMis (OEl EUnit) x = Some y /\ ometa y = ometa x.
+Proof.
+  intros Hwf. destruct (unit_flags CMis x Hwf) as [y [E [_ [_ [_ Hm]]]]]. exists y; split; assumption.
+Qed.
+
+(* unary minus of a misorientation: quaternions kept, every flag toggled,
+   symmetry pair kept *)
+Theorem misorientation_neg_symmetry (x : obj V) :
+  wf CMis x = true ->
+  exists y, step_cls vf CMis (OEl ENeg) x = Some y
+            /\ o_data y = o_data x /\ o_flags y = map negb (o_flags x) /\ ometa y = ometa x.
+Proof.
+  intros Hwf. eexists. split; [eapply (eop_step CMis ENeg); [exact Hwf|reflexivity]|].
+  unfold o_data, o_flags; cbn [oshape orows ometa smeta]. rewrite !map_map.
+  repeat split; reflexivity.
+Qed.
+
+(* unary minus of a Miller object: values negated, phase and coordinate format kept *)
+Theorem miller_neg_metadata (x : obj V) :
+  wf CMil x = true ->
+  exists y, step_cls vf CMil (OEl ENeg) x = Some y
+            /\ oshape y = oshape x /\ o_data y = map (v_neg vf) (o_data x) /\ ometa y = ometa x.
+Proof.
+  intros Hwf. eexists. split; [eapply (eop_step CMil ENeg); [exact Hwf|reflexivity]|].
+  unfold o_data; cbn [oshape orows ometa smeta]. rewrite !map_map.
+  repeat split; reflexivity.
+Qed.
+
+(* Miller.squeeze returns: same rows and metadata, size-1 axes removed *)
+Theorem miller_squeeze (x : obj V) :
+  wf CMil x = true ->
+  step_cls vf CMil OSqueeze x
+  = Some (mkObj (atleast1 (squeeze_shape (oshape x))) (orows x) (ometa x)).
+Proof. intros Hwf. rewrite (step_faithful vf CMil _ x Hwf). reflexivity. Qed.
+End Repaired.
 
 (* ------------------------------------------------- read-only properties *)
 Section Azimuth.
-Context {T : Type} (O : Ops T).
+Context {T : Type}.
 
-Definition az_fixed (v : list T) : Prop :=
-  match v with
-  | x :: y :: _ => (isclose0 O x = false \/ x = o_ofZ O 0) /\ (isclose0 O y = false \/ y = o_ofZ O 0)
-  | _ => True
-  end.
-
-Lemma az_clean_fixed v : az_fixed v -> az_clean O v = v.
-Proof.
-  destruct v as [|x [|y r]]; simpl; try reflexivity.
-  intros [[Hx|Hx] [Hy|Hy]]; try rewrite Hx; try rewrite Hy; try reflexivity;
-    subst; repeat match goal with |- context[if ?b then _ else _] => destruct b end; reflexivity.
-Qed.
-
-(* reading azimuth leaves the object alone iff no x / y component is a
-   non-zero number within 1e-8 of zero *)
-Theorem azimuth_no_mutation_outside (x : obj (list T)) :
-  Forall (fun r => az_fixed (fst r)) (orows x) -> after_read O PAzimuth x = x.
-Proof.
-  destruct x as [s rows m]. simpl. intros H. f_equal.
-  induction H as [|[v b] rows Hv _ IH]; simpl; [reflexivity|].
-  rewrite IH. simpl in Hv. rewrite (az_clean_fixed v Hv). reflexivity.
-Qed.
+(* reading azimuth leaves the object alone: the rounding of near-zero x / y
+   components is done on copies *)
+Theorem azimuth_no_mutation (x : obj (list T)) : after_read PAzimuth x = x.
+Proof. reflexivity. Qed.
 
 (* every other public property is a pure function of the object *)
-Theorem pure_properties_no_mutation (x : obj (list T)) i : after_read O (PPure i) x = x.
+Theorem pure_properties_no_mutation (x : obj (list T)) i : after_read (PPure i) x = x.
 Proof. reflexivity. Qed.
 End Azimuth.
-
-Local Open Scope R_scope.
-Lemma azimuth_mutation_refuted :
-  exists x : obj (list R), after_read ROps PAzimuth x <> x.
-Proof.
-  exists (mkObj [1%nat] [([1 / 1000000000; 1; 0], false)] meta0).
-  unfold after_read; simpl. unfold isclose0. rsimpl.
-  assert (E1 : Rleb (Rabs (1 / 1000000000)) (1 / IZR (Zpos 100000000)) = true).
-  { apply Rleb_true. rewrite Rabs_pos_eq by lra. lra. }
-  rewrite E1. intros H. inversion H as [H1]. lra.
-Qed.
 
 (* ------------------------------------------------------------------
    the headline for structural programs on the implementation's method
@@ -194,12 +208,12 @@ Proof.
 Qed.
 
 Theorem class_index_array c p x :
-  wf c x = true -> safe_run vf c p x = true -> forallb is_struct p = true ->
+  wf c x = true -> forallb is_struct p = true ->
   run (step_cls vf c) p x
   = option_map (fun a => mkObj (fst a) (gather (drow vf) (orows x) (snd a)) (ometa x))
                (arun act_idx (length (orows x)) p (oshape x, seq 0 (length (orows x)))).
 Proof.
-  intros Hwf Hs Hst. rewrite (run_faithful vf c p x Hwf Hs), run_spec_arun.
+  intros Hwf Hst. rewrite (run_faithful vf c p x Hwf), run_spec_arun.
   rewrite (struct_meta c p _ Hst).
   rewrite (struct_index_array vf c p (oshape x) (orows x))
     by (rewrite (struct_no_eops p Hst); constructor).
